@@ -27,6 +27,7 @@ type pmtPipe struct {
 	buf    []byte
 	closed bool
 	waiters int  // readers currently blocked in Read
+	stalled bool // readers get nothing (not even buffered data) until unstall(): "the bytes are still in flight"
 	held   bool // end-of-stream is not reported to readers before release() (scripted "the read error surfaces now")
 }
 
@@ -43,10 +44,17 @@ func (p *pmtPipe) release() {
 	p.mu.Unlock()
 }
 
+func (p *pmtPipe) setStalled(v bool) {
+	p.mu.Lock()
+	p.stalled = v
+	p.cond.Broadcast()
+	p.mu.Unlock()
+}
+
 func (p *pmtPipe) Read(b []byte) (int, error) {
 	p.mu.Lock()
 	defer p.mu.Unlock()
-	for len(p.buf) == 0 && (!p.closed || p.held) {
+	for p.stalled || (len(p.buf) == 0 && (!p.closed || p.held)) {
 		p.waiters++
 		p.cond.Wait()
 		p.waiters--
@@ -184,6 +192,16 @@ func (c *pmtConn) releaseReadErrors() {
 	c.sh.mu.Unlock()
 	for _, p := range pipes {
 		p.release()
+	}
+}
+
+// stallReads / unstallReads: reads on both ends deliver nothing while stalled (writes still succeed).
+func (c *pmtConn) stallReads(v bool) {
+	c.sh.mu.Lock()
+	pipes := append([]*pmtPipe{}, c.sh.pipes...)
+	c.sh.mu.Unlock()
+	for _, p := range pipes {
+		p.setStalled(v)
 	}
 }
 
